@@ -124,13 +124,8 @@ def opM (ac : ApiCfg) (s : Sys) : Op → M Int Out
   | .asc x y => copyAssign ac.cfg x y >>= fun _ => pure .none
   | .asm x y => moveAssign ac.cfg x y >>= fun _ => pure .none
   | .swp x y => swap ac.cfg x y >>= fun _ => pure .none
-  | .appc x y => appendRangeFwd ac.cfg x true (srcsCopy (s.w.hdr y).data 0 (s.w.hdr y).size) >>= fun _ => pure .none
-  | .appm x y =>
-      -- hpp:5826: move iterators only when relocation may move (so that a throw leaves the source intact), then other.clear ()
-      appendRangeFwd ac.cfg x true
-        (if Gen.relocateWithMove ac.cfg.policy then srcsMove (s.w.hdr y).data 0 (s.w.hdr y).size
-         else srcsCopy (s.w.hdr y).data 0 (s.w.hdr y).size) >>= fun _ =>
-      eraseAll ac.cfg y >>= fun _ => pure .none
+  | .appc x y => appendOther ac.cfg x y >>= fun _ => pure .none
+  | .appm x y => appendOtherMove ac.cfg x y >>= fun _ => pure .none
   | .app x .fw vs => appendRangeFwd ac.cfg x true (extSrcs vs) >>= fun _ => pure .none
   | .app x .inp vs => appendRangeInput ac.cfg x true s.nextStream 0 vs >>= fun _ => pure .none
   | .at x i => getV x >>= fun v => if v.size ≤ i then throwE .range else readSlot v.data i >>= fun r => pure (.val r)
